@@ -2,6 +2,7 @@
 
 #include <yaclib/fault/config.hpp>
 #include <yaclib/fault/detail/fiber/scheduler.hpp>
+#include <yaclib/fault/verif.hpp>
 
 #include <cstdio>
 
@@ -13,6 +14,26 @@ static std::uint32_t sTickLength = 10;
 
 detail::fiber::FiberBase* Scheduler::GetNext() {
   YACLIB_DEBUG(_queue.Empty(), "Queue can't be empty");
+#ifdef YACLIB_VERIF
+  if (auto* f = verif::GetHooks().pick_next) {
+    std::uint64_t ids[64];
+    detail::fiber::Node* nodes[64];
+    int n = 0;
+    for (auto* first = _queue.GetElement(0, false); n != 64;) {
+      auto* node = _queue.GetElement(static_cast<std::size_t>(n), false);
+      if (node == nullptr || (n != 0 && node == first)) {
+        break;
+      }
+      nodes[n] = node;
+      ids[n] = static_cast<detail::fiber::FiberBase*>(static_cast<detail::fiber::BiNodeScheduler*>(node))->GetId();
+      ++n;
+    }
+    if (int i = f(ids, n); i >= 0 && i < n) {
+      nodes[i]->Erase();
+      return static_cast<detail::fiber::FiberBase*>(static_cast<detail::fiber::BiNodeScheduler*>(nodes[i]));
+    }
+  }
+#endif
   auto* next = PollRandomElementFromList(_queue);
   return static_cast<detail::fiber::FiberBase*>(static_cast<detail::fiber::BiNodeScheduler*>(next));
 }
@@ -87,10 +108,27 @@ void Scheduler::RunLoop() {
     if (_queue.Empty()) {
       AdvanceTime();
     }
+#ifdef YACLIB_VERIF
+    if (auto* f = verif::GetHooks().advance_time; f != nullptr && !_queue.Empty() && !_sleep_list.empty()) {
+      int runnable = 0;
+      while (_queue.GetElement(static_cast<std::size_t>(runnable), false) != nullptr &&
+             (runnable == 0 || _queue.GetElement(static_cast<std::size_t>(runnable), false) != _queue.GetElement(0, false))) {
+        ++runnable;
+      }
+      if (f(runnable, _time, _sleep_list.begin()->first)) {
+        AdvanceTime();
+      }
+    }
+#endif
     WakeUpNeeded();
     auto* next = GetNext();
     sCurrent = next;
     TickTime();
+#ifdef YACLIB_VERIF
+    if (auto* f = verif::GetHooks().on_resume) {
+      f(next->GetId(), _time);
+    }
+#endif
     next->Resume();
     if (next->GetState() == detail::fiber::Completed && !next->IsThreadAlive()) {
       delete next;
